@@ -60,6 +60,56 @@ def corpus_cases():
                 c.op("removefile", vfx.ps(t, "d/x")); c.op("metadata", vfx.ps(t, "d"))
             c.op("snap", t)
             cases.append(c)
+    return cases + link_cases()
+
+
+def link_cases():
+    """a served directory whose files are symbolic links to files outside it (the model sees plain files: every call
+    follows the links): setters, metadata, handles and adapters must all talk about the SAME entry - the linked file"""
+    T1, T2, T3 = hist.TIMES[1], hist.TIMES[4], hist.TIMES[5]
+    cases = []
+    for shape in ("plain", "alt", "ovl_upper", "alt_alt"):
+        c = vfx.Case("c19_links_%s" % shape)
+        sub = {"plain": "", "alt": "r/", "ovl_upper": "", "alt_alt": "r/s/"}[shape]
+        c.embfile(sub + "f", b"linked content, longer than any path of a link target could plausibly be" * 4)
+        c.embfile(sub + "d/g", b"gg")
+        c.embfile(sub + "empty", b"")
+        c.base("physlnk")
+        g = hist.Cfg()
+        g.has_phys = True
+        g.kind = "links_" + shape
+        u = c.fs("base", 0)
+        if shape == "plain":
+            t = u
+        elif shape == "alt":
+            t = c.fs("alt", u, vfx.hexs("/r"))
+        elif shape == "alt_alt":
+            a = c.fs("alt", u, vfx.hexs("/r"))
+            t = c.fs("alt", a, vfx.hexs("/s"))
+        else:
+            c.base("mem")
+            lo = c.fs("base", 1)
+            t = c.fs("ovl", 2, u, "-", lo, "-")
+        g.target = t
+        g.watch = [u]
+        c.cfg = g
+        c.has_phys = True
+        c.op("snap", t)
+        c.first_snap = c.nops - 1
+        for n in ("f", "d/g", "empty"):
+            x = vfx.ps(t, n)
+            c.op("metadata", x); c.op("isfile", x); c.op("readtostring", x)
+            c.op("setmtime", x, T2); c.op("metadata", x)
+            c.op("setatime", x, T3); c.op("metadata", x)
+            c.op("setmtime", x, T1); c.op("metadata", x)
+            c.op("setctime", x, T1); c.op("metadata", x)
+        a = c.op("appendfile", vfx.ps(t, "f")); c.op("hwrite", a, vfx.hexs(b"+more")); c.op("hdrop", a)
+        c.op("metadata", vfx.ps(t, "f")); c.op("readtostring", vfx.ps(t, "f"))
+        c.op("setmtime", vfx.ps(t, "f"), T2); c.op("metadata", vfx.ps(t, "f"))
+        c.op("copyfile", vfx.ps(t, "f"), vfx.ps(t, "copy")); c.op("metadata", vfx.ps(t, "copy"))
+        c.op("readdir", vfx.ps(t, "d")); c.op("walkdir", "%d:" % t); c.op("snap", t)
+        c.op("removefile", vfx.ps(t, "d/g")); c.op("exists", vfx.ps(t, "d/g")); c.op("snap", t)
+        cases.append(c)
     return cases
 
 
@@ -70,7 +120,9 @@ P = histprop.HistProp(
     rule=("histories mixing set_creation/modification/access_time (values: epoch, +-10^9 s, sub-second parts, 1 ns, "
           "year 2100) with write sessions, appends and copies on files and directories; every metadata record of every "
           "snapshot is compared including its three timestamps (explicitly set values exactly, values of now() as 'auto'); "
-          "on PhysicalFS the access time is compared only in the metadata() directly after set_access_time"),
+          "on PhysicalFS the access time is compared only in the metadata() directly after set_access_time; plus a served "
+          "directory whose files are symbolic links to files outside it, directly, through altroots and as an overlay's "
+          "write layer: the setters, metadata, handles and copies must all address the linked file"),
     assumptions=["host filesystem keeps nanosecond timestamps in the generated range"])
 generate, corpus, run_and_compare, known = P.generate, P.corpus, P.run_and_compare, P.known
 RULE, ASSUMPTIONS, BUILDS = P.RULE, P.ASSUMPTIONS, P.BUILDS
